@@ -85,6 +85,9 @@ type RunOpts struct {
 	Workers    int
 	StepBudget int64
 	MaxPaths   int
+	// StopAfterViol > 0: stop exploring once that many violating paths (not tagged as known
+	// findings) have been collected; the result is then marked truncated.
+	StopAfterViol int
 	TimeoutMs  int // per solver query
 	Solver     string
 	TargetPkgs []string // packages considered code under test (map-order exploration, prims)
@@ -116,6 +119,8 @@ type RunResult struct {
 	Steps        int64
 	Violations   []Violation
 	NViol        int
+	NUnknownViol int  // violating paths not tagged as known findings
+	StoppedOnViol bool
 	Inconclusive []string
 	Reach        map[string]int
 	FuncsSym     map[string]bool
@@ -367,6 +372,9 @@ func (p *Program) Explore(opts RunOpts) (*RunResult, error) {
 				}
 				for _, v := range ps.viols {
 					res.NViol++
+					if v.Known == "" {
+						res.NUnknownViol++
+					}
 					if len(res.Violations) < 400 {
 						res.Violations = append(res.Violations, v)
 					}
@@ -375,6 +383,10 @@ func (p *Program) Explore(opts RunOpts) (*RunResult, error) {
 					res.Samples = append(res.Samples, PathSummary{Trace: decisionsString(ps.trace), Obs: ps.obs, Status: status})
 				}
 				over := res.Paths >= opts.MaxPaths || (!opts.Deadline.IsZero() && time.Now().After(opts.Deadline))
+				if opts.StopAfterViol > 0 && res.NUnknownViol >= opts.StopAfterViol {
+					over = true
+					res.StoppedOnViol = true
+				}
 				if over && !res.Truncated {
 					res.Truncated = true
 				}
@@ -425,7 +437,9 @@ func (p *Program) Explore(opts RunOpts) (*RunResult, error) {
 	if firstErr != nil {
 		return res, firstErr
 	}
-	if res.Truncated {
+	if res.Truncated && res.StoppedOnViol {
+		res.Inconclusive = append(res.Inconclusive, fmt.Sprintf("exploration stopped after %d paths: %d violating paths collected", res.Paths, res.NUnknownViol))
+	} else if res.Truncated {
 		res.Inconclusive = append(res.Inconclusive, fmt.Sprintf("exploration truncated after %d paths (budget/deadline)", res.Paths))
 	}
 	sort.Strings(res.Inconclusive)
